@@ -367,6 +367,10 @@ func extraOutParamLocal(p *load.Program, an *mem.Analysis, fn *ssa.Function, idx
 					return false
 				}
 				for rt := range roots {
+					// the caller's own locals, or the caller's own (first) out-parameter handed on
+					if rt.Kind == mem.Param && rt.Idx == 0 && strings.HasPrefix(ssau.PkgSuffix(caller), "internal/") {
+						continue
+					}
 					if rt.Kind != mem.Alloc && rt.Kind != mem.Fresh {
 						return false
 					}
